@@ -145,6 +145,31 @@
 (*   PrintFuncIsPart      after a module print, Func.LLString of each      *)
 (*                        function is that function's part of the text     *)
 (*                                                                         *)
+(* ROUND 8 (count-preserving edits, indirect symbols, half-built IR)        *)
+(*   mutators   ReplaceInst(f, b, p, inst) (b.Insts[p] = a new instruction:  *)
+(*              the count of the function is unchanged, the numbering is not), *)
+(*              SwapInsts(f, b, p, q); SetTarget(group, i, target): assign    *)
+(*              Alias.Aliasee (the helper i32 global, the helper i64 global   *)
+(*              or a global of the module, whose fields SetField edits) /     *)
+(*              IFunc.Resolver (one of two helper resolvers); instructions    *)
+(*              op = "dep" (phi, select, call) whose cached Typ is computed   *)
+(*              from operands: built by the constructor (operands given, Typ  *)
+(*              computed at once) or as a struct literal (lit: no operands,   *)
+(*              no Typ) and completed later by FillArgs(f, b, p, ty);         *)
+(*              RetypeArgs assigns operands of the other type.                *)
+(*   state      tc of aliases / ifuncs (Typ, the type of the target when it   *)
+(*              was computed); lk of a function (its mutex is held); nb (the  *)
+(*              count memo of the seeded variant); args / aty / tc of a "dep" *)
+(*              instruction.                                                   *)
+(*   faults     an observer may fail half-way: printing a function with a     *)
+(*              block without terminator panics (documented), so does any     *)
+(*              Type() / String() / print that reaches an instruction without *)
+(*              operands.  The panic is the required outcome of *that* call;  *)
+(*              the property is about what the call leaves behind: nothing    *)
+(*              (ObserverTransparent after the IR has been completed).  With  *)
+(*              UnlockOnPanic = FALSE the mutex stays held and every later    *)
+(*              print is "blocked" (does not return).                         *)
+(*                                                                         *)
 (* BOUNDS  the structure bounds make the object graph finite; MaxCalls = 0 *)
 (* explores it without bounding the history (closed model, any number of   *)
 (* workers).  With MaxCalls > 0 the history length is bounded while VIEW   *)
@@ -193,8 +218,28 @@ CONSTANTS ValidateOnPrint,   \* TRUE = pinned tree, FALSE = as required
           MaxSrc,            \* ParseText: sources of at most MaxSrc definitions (0 = no ParseText)
           TrackQueries,      \* TRUE: a pure query is remembered in lastq until the next call
           StickyQueries,     \* TRUE: ... and mutators keep it, so that several edits can follow the query
-          Preset,            \* "" | "typed": the history starts with a fixed call sequence (part of hist, not counted
-                             \* by MaxCalls) that builds a global, a function, an alloca and typed uses of both
+          Preset,            \* "" | "typed" | "indirect" | "body" | "func": the history starts with a fixed call sequence
+                             \* (part of hist, not counted by MaxCalls): "typed" builds a global, a function, an alloca and
+                             \* typed uses of both; "indirect" a global, an alias of it, an ifunc, a function that uses alias
+                             \* and ifunc as typed operands; "body" a function with a parameter and two instructions;
+                             \* "func" a function with one finished block
+          IndirectRefresh,   \* when Alias.Type() / IFunc.Type() recompute the cached Typ from the aliasee / resolver:
+                             \* "never" = the code (computed by NewAlias / NewIFunc, kept for good; the definition line
+                             \* reads the field); "query" = Type() follows the aliasee but the definition line still reads
+                             \* the raw field (seeded variant: what is printed depends on who asked); "always" = Type()
+                             \* follows and the definition line asks Type() (transparent again)
+          UnlockOnPanic,     \* TRUE = the code: the function mutex is released by defer; FALSE = Func.LLString holds it
+                             \* over the rendering and a panic (half-built function) leaves it locked (seeded variant)
+          CountMemo,         \* FALSE = the code; TRUE = a printer skips AssignIDs while the number of parameters + blocks
+                             \* + instructions is what it was at the last numbering (seeded variant)
+          EmptyType,         \* Type() of an instruction whose operands have not been assigned yet: "panic" = the code
+                             \* (nothing is cached); "void" = a placeholder type is returned *and cached* (seeded variant)
+          LitRetype,         \* FALSE: the operands of an instruction built as a struct literal keep the type they were
+                             \* first given (well-typed use); TRUE: they may be retyped -- then the code itself is not
+                             \* transparent (Typ is computed by the first Type() call and never again): vacuity guard
+          DepKinds,          \* instructions whose cached Typ comes from operands that can be assigned after
+                             \* construction: subset of {"phi", "select", "call"} ({} = none)
+          Edits,             \* further mutators: subset of {"ReplaceInst", "SwapInsts", "SetTarget", "FillArgs", "RetypeArgs"}
           Observers,         \* subset of {"PrintModule","PrintFunc","PrintBlock","QueryType","QueryIdent","QueryOperands","QuerySuccs"}
           EmitFile
 
@@ -219,14 +264,26 @@ NoRef      == [t |-> "none", i |-> 0, b |-> 0]
 Ref(t, i)  == [t |-> t, i |-> i, b |-> 0]
 RefB(f, b) == [t |-> "block", i |-> f, b |-> b]        \* blockaddress(@f, %b)
 
+\* lk: the function's mutex is held (left behind by a print that panicked, UnlockOnPanic = FALSE);
+\* nb: the count memo (CountMemo = TRUE), -1 = not numbered yet
 GEnt(nm) == [name |-> nm, id |-> 0, res |-> "value", as |-> 0, ct |-> 0, va |-> FALSE,
-             tc |-> NewTC, ref |-> NoRef, snap |-> NoTC, att |-> 0]
+             tc |-> NewTC, ref |-> NoRef, snap |-> NoTC, att |-> 0, lk |-> FALSE, nb |-> -1]
+\* an alias / ifunc: NewAlias / NewIFunc compute Typ at once; ref = what it points to: NoRef = the first
+\* helper (i32 global / resolver of void ()), Ref("helper", 1) = the second helper (i64 global / resolver
+\* of i32 ()), Ref("global", i) = a global of the module
+IndEnt(nm) == [GEnt(nm) EXCEPT !.tc = TC(0, 0)]
 \* args: the two operands of a "call2" / "phi2" (<<>> otherwise); memo: state of the slot list a
 \* memoising Operands() would keep -- "none", "fresh" (points into the current Args array) or
 \* "stale" (points into an array that has been replaced); always "none" for the code as it is
+\* op = "dep": kind in DepKinds; lit = built as a struct literal (no operands yet: args = <<>>, Typ nil);
+\* aty = the type of the operands the result type is taken from (0 = i32, 1 = i64), tc.ct = the cached Typ
+\* (2 = void, the placeholder of the EmptyType = "void" variant)
 IInst(nm, r, op, ref) == [name |-> nm, id |-> 0, res |-> r, op |-> op, ref |-> ref,
                           as |-> 0, ct |-> 0, tc |-> IF op = "alloca" THEN NewTC ELSE NoTC, att |-> 0,
-                          args |-> IF op \in {"call2", "phi2"} THEN <<1, 2>> ELSE <<>>, memo |-> "none"]
+                          args |-> IF op \in {"call2", "phi2"} THEN <<1, 2>> ELSE <<>>, memo |-> "none",
+                          kind |-> "", lit |-> FALSE, aty |-> 0]
+DepInst(nm, k, l) == [IInst(nm, "value", "dep", NoRef) EXCEPT !.kind = k, !.lit = l,
+                        !.args = IF l THEN <<>> ELSE <<1, 2>>, !.tc = IF l THEN NoTC ELSE TC(0, 0)]
 ArgVals == {1, 2, 3}
 
 \* Global.Type / Func.Type: computed once, and again when the cached type no longer matches the
@@ -241,8 +298,15 @@ AllocaStale(i) == CASE AllocaRefresh = "fields"    -> i.tc.as # i.as \/ i.tc.ct 
                     [] AllocaRefresh = "addrspace" -> i.tc.as # i.as
                     [] OTHER                       -> FALSE
 FillA(i) == IF i.op = "alloca" /\ (~i.tc.set \/ AllocaStale(i)) THEN [i EXCEPT !.tc = TC(i.as, i.ct)] ELSE i
+\* Type() of a "dep" instruction (InstPhi.Type, InstSelect.Type, InstCall.Type): computed from the operands
+\* by the first call that finds some, never again; without operands the call panics and caches nothing
+\* ("void": the seeded variant caches a placeholder)
+DepHalf(i) == i.op = "dep" /\ i.args = <<>> /\ ~i.tc.set
+FillD(i) == IF i.op # "dep" \/ i.tc.set THEN i
+            ELSE IF i.args = <<>> THEN (IF EmptyType = "void" THEN [i EXCEPT !.tc = TC(0, 2)] ELSE i)
+            ELSE [i EXCEPT !.tc = TC(0, i.aty)]
 FillSeqG(s) == [i \in 1..Len(s) |-> FillG(s[i])]
-FillSeqA(s) == [i \in 1..Len(s) |-> FillA(s[i])]
+FillSeqA(s) == [i \in 1..Len(s) |-> FillD(FillA(s[i]))]
 FillBody(body) == [body EXCEPT !.blocks = [b \in 1..Len(@) |-> [@[b] EXCEPT !.insts = FillSeqA(@)]]]
 
 ----------------------------------------------------------------------------
@@ -259,6 +323,7 @@ PlainInsts == {IInst(nm, "value", "plain", NoRef) : nm \in NewNames}
 OperandInsts == (IF "call2" \in InstOps THEN {IInst("", "void", "call2", NoRef)} ELSE {})
                 \cup (IF "phi2" \in InstOps THEN {IInst(nm, "value", "phi2", NoRef) : nm \in NewNames} ELSE {})
 AllocaInsts == IF "alloca" \in InstOps THEN {IInst(nm, "value", "alloca", NoRef) : nm \in NewNames} ELSE {}
+DepInsts == {DepInst(nm, k, l) : nm \in NewNames, k \in DepKinds, l \in BOOLEAN}
 
 ParamSeqs == UNION {[1..n -> {Ent(nm) : nm \in NewNames}] : n \in 0..MaxParams}
 
@@ -327,6 +392,7 @@ FuncText(e, body) == <<Tok(e)>> \o Toks(body.params) \o BlocksText(body.blocks)
 
 B2N(x) == IF x THEN 1 ELSE 0
 Ty(k, a, c) == [k |-> k, a |-> a, c |-> c]
+IndGroup(t) == IF t = "alias" THEN "aliases" ELSE "ifuncs"
 \* a global definition: AddrSpace and ContentType from the fields; for a global initialised
 \* with another object the ContentType is the type copied at construction
 \* the block a blockaddress names, as it is shown: its number at that moment (-1: named)
@@ -342,7 +408,11 @@ InstTy(w, f, i) ==
     [] i.op = "use" /\ i.ref.t = "func"   -> LET e == w.gl.funcs[i.ref.i] IN <<Ty("fuse", e.tc.as, B2N(e.va))>>
     [] i.op = "use" /\ i.ref.t = "alloca" -> LET a == TheAlloca(w.fn[f]) IN <<Ty("ause", a.tc.as, a.tc.ct)>>
     [] i.op = "use" /\ i.ref.t = "block"  -> BaTy(w, i.ref)
+    [] i.op = "use" /\ i.ref.t \in {"alias", "ifunc"} ->
+         LET e == w.gl[IndGroup(i.ref.t)][i.ref.i] IN <<Ty("iuse", e.tc.as, e.tc.ct)>>
     [] i.op \in {"call2", "phi2"}         -> <<Ty("args", i.args[1], i.args[2])>>
+    \* the cached result type and the type of the operands (-1: none yet)
+    [] i.op = "dep" -> <<Ty("dep", i.tc.ct, IF i.args = <<>> THEN -1 ELSE i.aty)>>
     [] OTHER -> <<>>
 RECURSIVE InstsTy(_, _, _)
 InstsTy(w, f, is) == IF is = <<>> THEN <<>> ELSE InstTy(w, f, Head(is)) \o InstsTy(w, f, Tail(is))
@@ -365,11 +435,38 @@ Panic(why)        == [ok |-> FALSE, why |-> why, text |-> <<>>, ty |-> <<>>, mdt
 ----------------------------------------------------------------------------
 (* Observers as functions world -> [w, out], written as the code is.       *)
 
+\* the type of what an alias / ifunc points to now, [as, ct]
+IndTarget(w, e) ==
+  CASE e.ref.t = "global" -> LET x == FillG(w.gl.globals[e.ref.i]) IN [as |-> x.tc.as, ct |-> x.tc.ct]
+    [] e.ref.t = "helper" -> [as |-> 0, ct |-> e.ref.i]
+    [] OTHER              -> [as |-> 0, ct |-> 0]
+\* Alias.Type() / IFunc.Type() of entry i of group g: the code returns the Typ NewAlias computed; the
+\* variants ask the aliasee for its type (which fills the cache of a module global) and store it
+TouchInd(w, g, i) ==
+  LET e  == w.gl[g][i]
+      t  == IndTarget(w, e)
+      w1 == IF e.ref.t = "global" THEN [w EXCEPT !.gl.globals[e.ref.i] = FillG(@)] ELSE w
+  IN IF IndirectRefresh = "never" /\ e.tc.set THEN w ELSE [w1 EXCEPT !.gl[g][i].tc = TC(t.as, t.ct)]
+RECURSIVE TouchIndAll(_, _, _)
+TouchIndAll(w, g, i) == IF i > Len(w.gl[g]) THEN w ELSE TouchIndAll(TouchInd(w, g, i), g, i + 1)
+\* the definition lines of group g from entry i on, [w, ty]: Alias.LLString / IFunc.LLString show the element
+\* type of the *field* Typ ("always": of Type()), then the aliasee as a typed value (its Type() is asked)
+RECURSIVE IndDefs(_, _, _)
+IndDefs(w, g, i) ==
+  IF i > Len(w.gl[g]) THEN [w |-> w, ty |-> <<>>]
+  ELSE LET w1 == IF IndirectRefresh = "always" THEN TouchInd(w, g, i) ELSE w
+           e  == w1.gl[g][i]
+           w2 == IF e.ref.t = "global" THEN [w1 EXCEPT !.gl.globals[e.ref.i] = FillG(@)] ELSE w1
+           t  == IndTarget(w2, e)
+           r  == IndDefs(w2, g, i + 1)
+       IN [w |-> r.w, ty |-> <<Ty("idef", 0, e.tc.ct), Ty("itgt", t.as, t.ct)>> \o r.ty]
+
 \* printing a typed operand calls its Type(): the cache of the operand is filled
 Touch(w, f, r) ==
   CASE r.t = "global" -> [w EXCEPT !.gl.globals[r.i] = FillG(@)]
     [] r.t = "func"   -> [w EXCEPT !.gl.funcs[r.i] = FillG(@)]
     [] r.t = "alloca" -> [w EXCEPT !.fn[f] = FillBody(@)]
+    [] r.t \in {"alias", "ifunc"} -> TouchInd(w, IndGroup(r.t), r.i)
     [] OTHER          -> w
 RECURSIVE TouchInsts(_, _, _)
 TouchInsts(w, f, is) == IF is = <<>> THEN w ELSE TouchInsts(Touch(w, f, Head(is).ref), f, Tail(is))
@@ -396,20 +493,43 @@ DedupBody(body) == IF ~RenameTaken THEN body
                    ELSE LET ps == DedupSeq(body.params, {})
                         IN [params |-> ps.s, blocks |-> DedupBlocks(body.blocks, ps.taken)]
 
-\* Func.LLString: AssignIDs (which asks every instruction for its Type), then header and body
+\* number of parameters, blocks and instructions (what the CountMemo variant remembers)
+RECURSIVE InstCount(_)
+InstCount(bs) == IF bs = <<>> THEN 0 ELSE Len(Head(bs).insts) + InstCount(Tail(bs))
+LocalCount(body) == Len(body.params) + Len(body.blocks) + InstCount(body.blocks)
+\* an instruction without operands: AssignIDs asks it for its Type(), which panics
+HalfBuilt(body) == \E b \in 1..Len(body.blocks) : \E p \in 1..Len(body.blocks[b].insts) : DepHalf(body.blocks[b].insts[p])
+LockIf(w, f) == IF UnlockOnPanic THEN w ELSE [w EXCEPT !.gl.funcs[f].lk = TRUE]
+
+\* (*Func).assignIDs, [ok, why, w]: takes the mutex ("blocked": it is held for good), walks (asking every
+\* instruction for its Type), releases the mutex by defer.  A panic in the walk leaves the IDs written so far
+\* behind; they are rewritten by the next print and not modelled.
+NumberW(w, f, validate) ==
+  LET body == w.fn[f] IN
+  IF w.gl.funcs[f].lk THEN [ok |-> FALSE, why |-> "blocked", w |-> w]
+  ELSE IF CountMemo /\ ~validate /\ w.gl.funcs[f].nb = LocalCount(body) THEN [ok |-> TRUE, why |-> "", w |-> w]
+  ELSE IF EmptyType = "panic" /\ HalfBuilt(body) THEN [ok |-> FALSE, why |-> "half-built", w |-> w]
+  ELSE LET a  == AssignLocalIDs(body, validate)
+           w1 == [w EXCEPT !.fn[f] = IF a.ok THEN FillBody(DedupBody(a.f)) ELSE a.f,
+                           !.gl.funcs[f].nb = IF CountMemo /\ a.ok THEN LocalCount(body) ELSE @]
+       IN [ok |-> a.ok, why |-> IF a.ok THEN "" ELSE "local-id", w |-> w1]
+
+\* Func.LLString: AssignIDs (which asks every instruction for its Type), then header and body.  With
+\* UnlockOnPanic = FALSE the mutex is held from the numbering to the end of the rendering and released on
+\* the two regular exits only: a panic on the way (instruction without operands, block without terminator)
+\* leaves it held.
 PrintFuncW(w, f, validate) ==
-  LET a0 == AssignLocalIDs(w.fn[f], validate)
-      a  == [a0 EXCEPT !.f = DedupBody(@)]
-      w1 == [w EXCEPT !.fn[f] = IF a.ok THEN FillBody(a.f) ELSE a.f]
-  IN IF ~a.ok THEN [w |-> w1, out |-> Panic("local-id")]
-     ELSE LET w2 == TouchBlocks(w1, f, w1.fn[f].blocks) IN
-          IF MissingTerm(a.f) THEN [w |-> w2, out |-> Panic("no-term")]
-          ELSE [w |-> w2,
-                out |-> Ok(IF HeaderBeforeAssign
-                           THEN <<Tok(w.gl.funcs[f])>> \o Toks(w.fn[f].params) \o BlocksText(w2.fn[f].blocks)
-                           ELSE FuncText(w2.gl.funcs[f], w2.fn[f]),
-                           FuncTy(w2.gl.funcs[f]) \o BlocksTy(w2, f, w2.fn[f].blocks),
-                           BlocksAtt(w2, w2.fn[f].blocks))]
+  LET n == NumberW(w, f, validate) IN
+  IF ~n.ok THEN [w |-> IF n.why = "half-built" THEN LockIf(n.w, f) ELSE n.w, out |-> Panic(n.why)]
+  ELSE LET w1 == n.w
+           w2 == TouchBlocks(w1, f, w1.fn[f].blocks) IN
+       IF MissingTerm(w1.fn[f]) THEN [w |-> LockIf(w2, f), out |-> Panic("no-term")]
+       ELSE [w |-> w2,
+             out |-> Ok(IF HeaderBeforeAssign
+                        THEN <<Tok(w.gl.funcs[f])>> \o Toks(w.fn[f].params) \o BlocksText(w2.fn[f].blocks)
+                        ELSE FuncText(w2.gl.funcs[f], w2.fn[f]),
+                        FuncTy(w2.gl.funcs[f]) \o BlocksTy(w2, f, w2.fn[f].blocks),
+                        BlocksAtt(w2, w2.fn[f].blocks))]
 
 RECURSIVE PrintFuncsFrom(_, _, _, _)
 PrintFuncsFrom(w, f, validate, acc) ==
@@ -420,11 +540,10 @@ PrintFuncsFrom(w, f, validate, acc) ==
                            Ok(acc.text \o r.out.text, acc.ty \o r.out.ty, acc.mdt \o r.out.mdt))
 
 RECURSIVE AssignAllFuncs(_, _, _)
-AssignAllFuncs(w, f, validate) ==      \* [ok, w]
-  IF ~AssignAllFirst \/ f > Len(w.fn) THEN [ok |-> TRUE, w |-> w]
-  ELSE LET a == AssignLocalIDs(w.fn[f], validate)
-           w1 == [w EXCEPT !.fn[f] = IF a.ok THEN FillBody(DedupBody(a.f)) ELSE a.f]
-       IN IF ~a.ok THEN [ok |-> FALSE, w |-> w1] ELSE AssignAllFuncs(w1, f + 1, validate)
+AssignAllFuncs(w, f, validate) ==      \* [ok, why, w]
+  IF ~AssignAllFirst \/ f > Len(w.fn) THEN [ok |-> TRUE, why |-> "", w |-> w]
+  ELSE LET n == NumberW(w, f, validate)
+       IN IF ~n.ok THEN n ELSE AssignAllFuncs(n.w, f + 1, validate)
 
 \* Module.WriteTo / String
 PrintModuleW(w, validate) ==
@@ -440,14 +559,16 @@ PrintModuleW(w, validate) ==
                   \* blockaddress in a global initialiser or in an earlier function names a block of
                   \* a function that is printed later
                   LET a3 == AssignAllFuncs(w2, 1, validate) IN
-                  IF ~a3.ok THEN [w |-> a3.w, out |-> Panic("local-id")]
+                  IF ~a3.ok THEN [w |-> a3.w, out |-> Panic(a3.why)]
                   ELSE
                   \* sub-step 4: globals, aliases, ifuncs are written, then each function, then
                   \* the metadata definitions (collected here in mdt after the attachments)
                   LET w3 == a3.w
-                      r == PrintFuncsFrom(w3, 1, validate,
+                      ia == IndDefs(w3, "aliases", 1)
+                      ii == IndDefs(ia.w, "ifuncs", 1)
+                      r == PrintFuncsFrom(ii.w, 1, validate,
                              Ok(Toks(g1.globals) \o Toks(g1.aliases) \o Toks(g1.ifuncs),
-                                GlobalsTy(w3, g1.globals), SeqAtt(w3, g1.globals)))
+                                GlobalsTy(w3, g1.globals) \o ia.ty \o ii.ty, SeqAtt(w3, g1.globals)))
                   IN IF ~r.out.ok THEN r
                      ELSE [w |-> r.w, out |-> [r.out EXCEPT !.mdt = @ \o MdIdsOf(r.w.md)]]
 
@@ -460,13 +581,14 @@ PrintBlockW(w, f, b) ==
 
 \* Type() and String() of every object
 QueryTypeW(w) ==
-  [w EXCEPT !.gl.globals = FillSeqG(@), !.gl.funcs = FillSeqG(@),
-            !.fn = [f \in 1..Len(@) |-> FillBody(@[f])]]
+  LET w1 == [w EXCEPT !.gl.globals = FillSeqG(@), !.gl.funcs = FillSeqG(@),
+                      !.fn = [f \in 1..Len(@) |-> FillBody(@[f])]]
+  IN TouchIndAll(TouchIndAll(w1, "aliases", 1), "ifuncs", 1)
 
 ----------------------------------------------------------------------------
 (* Mutators as functions world -> world (applied to the state and to twin) *)
 
-NewGlobalW(w, g, nm) == [w EXCEPT !.gl[g] = Append(@, GEnt(nm))]
+NewGlobalW(w, g, nm) == [w EXCEPT !.gl[g] = Append(@, IF g = "globals" THEN GEnt(nm) ELSE IndEnt(nm))]
 \* m.NewGlobalDef(nm, target): init.Type() is called and copied into ContentType
 NewGlobalRefW(w, nm, r) ==
   LET w1 == Touch(w, 0, r)
@@ -483,6 +605,15 @@ InsertInstW(w, f, b, p, i) == [w EXCEPT !.fn[f].blocks[b].insts = InsAt(@, p, i)
 RemoveInstW(w, f, b, p)    == [w EXCEPT !.fn[f].blocks[b].insts = DelAt(@, p)]
 SetTermW(w, f, b, t)       == [w EXCEPT !.fn[f].blocks[b].term = [t EXCEPT !.tgt = b]]   \* successor: the block itself
 RetargetW(w, f, b, to)     == [w EXCEPT !.fn[f].blocks[b].term.tgt = to]
+\* b.Insts[p] = inst: another object at the same place (the count of the function is unchanged)
+ReplaceInstW(w, f, b, p, i) == [w EXCEPT !.fn[f].blocks[b].insts[p] = i]
+\* b.Insts[p], b.Insts[q] = b.Insts[q], b.Insts[p]
+SwapInstsW(w, f, b, p, q)   == [w EXCEPT !.fn[f].blocks[b].insts =
+                                  [k \in 1..Len(@) |-> IF k = p THEN @[q] ELSE IF k = q THEN @[p] ELSE @[k]]]
+\* alias.Aliasee = target / ifunc.Resolver = target: a plain field assignment
+SetTargetW(w, g, i, r)      == [w EXCEPT !.gl[g][i].ref = r]
+\* phi.Incs = two incoming values / select.ValueTrue, ValueFalse = ... / call.Callee = ... of type ty
+SetArgsW(w, f, b, p, ty)    == [w EXCEPT !.fn[f].blocks[b].insts[p] = [@ EXCEPT !.args = <<1, 2>>, !.aty = ty]]
 
 \* operand-level edits of a call2 / phi2
 \* call.Args = []value.Value{a, b} (phi.Incs = ...): a new backing array -- a kept slot list goes stale
@@ -580,8 +711,8 @@ ParseW(src) ==
 
 NoQuery == <<"", 0>>
 EmptyWorld == [gl |-> EmptyGl, fn |-> <<>>, md |-> <<>>]
-\* Preset "typed": m.NewGlobal; m.NewFunc; f.NewBlock + NewRet; NewAlloca; a use of the alloca; a use of the global.
-\* The scaffold costs no depth, so that the bounded histories are spent on field edits and observers
+\* Presets: scaffolds that cost no depth, so that the bounded histories are spent on edits and observers.
+\* Preset "typed": m.NewGlobal; m.NewFunc; f.NewBlock + NewRet; NewAlloca; a use of the alloca; a use of the global
 \* (set AddrSpace, observe, set it back, print needs 4 calls after the 6 of the scaffold).
 PW1 == NewGlobalW(EmptyWorld, "globals", "")
 PW2 == NewFuncW(PW1, "", <<>>)
@@ -589,17 +720,46 @@ PW3 == NewBlockW(PW2, 1, "", Term("ret", "", "none"))
 PW4 == InsertInstW(PW3, 1, 1, 1, IInst("", "value", "alloca", NoRef))
 PW5 == InsertInstW(PW4, 1, 1, 2, IInst("", "void", "use", Ref("alloca", 0)))
 PW6 == InsertInstW(PW5, 1, 1, 3, IInst("", "void", "use", Ref("global", 1)))
-PresetWorld == IF Preset = "typed" THEN PW6 ELSE EmptyWorld
+\* Preset "indirect": a global, an alias of it, an ifunc, a function whose block uses alias and ifunc as typed operands
+PI1 == NewGlobalW(EmptyWorld, "globals", "")
+PI2 == NewGlobalW(PI1, "aliases", "")
+PI3 == SetTargetW(PI2, "aliases", 1, Ref("global", 1))
+PI4 == NewGlobalW(PI3, "ifuncs", "")
+PI5 == NewFuncW(PI4, "", <<>>)
+PI6 == NewBlockW(PI5, 1, "", Term("ret", "", "none"))
+PI7 == InsertInstW(PI6, 1, 1, 1, IInst("", "void", "use", Ref("alias", 1)))
+PI8 == InsertInstW(PI7, 1, 1, 2, IInst("", "void", "use", Ref("ifunc", 1)))
+\* Preset "body": a function with an unnamed parameter, one block, two unnamed value instructions
+PB1 == NewFuncW(EmptyWorld, "", <<Ent("")>>)
+PB2 == NewBlockW(PB1, 1, "", Term("ret", "", "none"))
+PB3 == InsertInstW(PB2, 1, 1, 1, IInst("", "value", "plain", NoRef))
+PB4 == InsertInstW(PB3, 1, 1, 2, IInst("", "value", "plain", NoRef))
+\* Preset "func": a function with one finished block
+PF1 == NewFuncW(EmptyWorld, "", <<>>)
+PF2 == NewBlockW(PF1, 1, "", Term("ret", "", "none"))
+PresetWorld == CASE Preset = "typed" -> PW6 [] Preset = "indirect" -> PI8 [] Preset = "body" -> PB4
+                 [] Preset = "func" -> PF2 [] OTHER -> EmptyWorld
 InsCall(p, res, iop, r) == [op |-> "InsertInst", f |-> 1, b |-> 1, p |-> p, nm |-> "", res |-> res,
-                            iop |-> iop, rt |-> r.t, ri |-> r.i, rb |-> r.b]
-PresetHist == IF Preset = "typed"
-              THEN << [op |-> "NewGlobal", g |-> "globals", nm |-> ""],
-                      [op |-> "NewFunc", nm |-> "", ps |-> <<>>],
-                      [op |-> "NewBlock", f |-> 1, nm |-> "", k |-> "ret", tn |-> "", res |-> "none"],
-                      InsCall(1, "value", "alloca", NoRef),
-                      InsCall(2, "void", "use", Ref("alloca", 0)),
-                      InsCall(3, "void", "use", Ref("global", 1)) >>
-              ELSE <<>>
+                            iop |-> iop, rt |-> r.t, ri |-> r.i, rb |-> r.b, kind |-> "", lit |-> FALSE]
+NewGlobalCall(g) == [op |-> "NewGlobal", g |-> g, nm |-> ""]
+RetBlockCall == [op |-> "NewBlock", f |-> 1, nm |-> "", k |-> "ret", tn |-> "", res |-> "none"]
+PresetHist ==
+  CASE Preset = "typed" ->
+         << NewGlobalCall("globals"), [op |-> "NewFunc", nm |-> "", ps |-> <<>>], RetBlockCall,
+            InsCall(1, "value", "alloca", NoRef),
+            InsCall(2, "void", "use", Ref("alloca", 0)),
+            InsCall(3, "void", "use", Ref("global", 1)) >>
+    [] Preset = "indirect" ->
+         << NewGlobalCall("globals"), NewGlobalCall("aliases"),
+            [op |-> "SetTarget", g |-> "aliases", i |-> 1, rt |-> "global", ri |-> 1],
+            NewGlobalCall("ifuncs"), [op |-> "NewFunc", nm |-> "", ps |-> <<>>], RetBlockCall,
+            InsCall(1, "void", "use", Ref("alias", 1)),
+            InsCall(2, "void", "use", Ref("ifunc", 1)) >>
+    [] Preset = "body" ->
+         << [op |-> "NewFunc", nm |-> "", ps |-> <<"">>], RetBlockCall,
+            InsCall(1, "value", "plain", NoRef), InsCall(2, "value", "plain", NoRef) >>
+    [] Preset = "func" -> << [op |-> "NewFunc", nm |-> "", ps |-> <<>>], RetBlockCall >>
+    [] OTHER -> <<>>
 Room == MaxCalls = 0 \/ Len(hist) < MaxCalls + Len(PresetHist)
 
 Mutate(W(_), call) ==     \* W = function world -> world
@@ -659,21 +819,53 @@ UseInsts(f) ==
   IF "use" \notin InstOps THEN {}
   ELSE {IInst("", "void", "use", r) :
           r \in {Ref("global", i) : i \in 1..Len(gl.globals)} \cup {Ref("func", i) : i \in 1..Len(gl.funcs)}
+                \cup {Ref("alias", i) : i \in 1..Len(gl.aliases)} \cup {Ref("ifunc", i) : i \in 1..Len(gl.ifuncs)}
                 \cup (IF HasAlloca(fn[f]) THEN {Ref("alloca", 0)} ELSE {}) \cup BlockRefs}
 NewInstsFor(f) ==
-  PlainInsts \cup OperandInsts \cup (IF HasAlloca(fn[f]) THEN {} ELSE AllocaInsts)
+  PlainInsts \cup OperandInsts \cup DepInsts \cup (IF HasAlloca(fn[f]) THEN {} ELSE AllocaInsts)
   \cup {i \in UseInsts(f) : i.ref.t \in RefTargets}
+InstCall(opn, f, b, p, i) ==
+  [op |-> opn, f |-> f, b |-> b, p |-> p, nm |-> i.name, res |-> i.res,
+   iop |-> i.op, rt |-> i.ref.t, ri |-> i.ref.i, rb |-> i.ref.b, kind |-> i.kind, lit |-> i.lit]
 InsertInstA ==
   \E f \in 1..Len(fn) : \E b \in 1..Len(fn[f].blocks) :
     \E p \in 1..Len(fn[f].blocks[b].insts) + 1, i \in NewInstsFor(f) :
       /\ Len(fn[f].blocks[b].insts) < MaxInsts
-      /\ Mutate(LAMBDA w : InsertInstW(w, f, b, p, i),
-                [op |-> "InsertInst", f |-> f, b |-> b, p |-> p, nm |-> i.name, res |-> i.res,
-                 iop |-> i.op, rt |-> i.ref.t, ri |-> i.ref.i, rb |-> i.ref.b])
+      /\ Mutate(LAMBDA w : InsertInstW(w, f, b, p, i), InstCall("InsertInst", f, b, p, i))
 RemoveInstA ==
   \E f \in 1..Len(fn) : \E b \in 1..Len(fn[f].blocks) : \E p \in 1..Len(fn[f].blocks[b].insts) :
     /\ fn[f].blocks[b].insts[p].op = "alloca" => ~UsesAlloca(fn[f])      \* no dangling operand
     /\ Mutate(LAMBDA w : RemoveInstW(w, f, b, p), [op |-> "RemoveInst", f |-> f, b |-> b, p |-> p])
+\* count-preserving edits of a block
+ReplaceInstA ==
+  /\ "ReplaceInst" \in Edits
+  /\ \E f \in 1..Len(fn) : \E b \in 1..Len(fn[f].blocks) : \E p \in 1..Len(fn[f].blocks[b].insts) :
+       \E i \in NewInstsFor(f) \cup (IF fn[f].blocks[b].insts[p].op = "alloca" THEN AllocaInsts ELSE {}) :
+         /\ fn[f].blocks[b].insts[p].op = "alloca" => ~UsesAlloca(fn[f])      \* no dangling operand
+         /\ Mutate(LAMBDA w : ReplaceInstW(w, f, b, p, i), InstCall("ReplaceInst", f, b, p, i))
+SwapInstsA ==
+  /\ "SwapInsts" \in Edits
+  /\ \E f \in 1..Len(fn) : \E b \in 1..Len(fn[f].blocks) :
+       \E p \in 1..Len(fn[f].blocks[b].insts), q \in 1..Len(fn[f].blocks[b].insts) :
+         /\ p < q
+         /\ Mutate(LAMBDA w : SwapInstsW(w, f, b, p, q), [op |-> "SwapInsts", f |-> f, b |-> b, p |-> p, q |-> q])
+\* alias.Aliasee = ... / ifunc.Resolver = ...
+SetTargetA ==
+  /\ "SetTarget" \in Edits
+  /\ \E g \in {"aliases", "ifuncs"} : \E i \in 1..Len(gl[g]) :
+       \E r \in {NoRef, Ref("helper", 1)}
+                \cup (IF g = "aliases" THEN {Ref("global", j) : j \in 1..Len(gl.globals)} ELSE {}) :
+         /\ gl[g][i].ref # r
+         /\ Mutate(LAMBDA w : SetTargetW(w, g, i, r), [op |-> "SetTarget", g |-> g, i |-> i, rt |-> r.t, ri |-> r.i])
+\* the operands of a "dep" instruction: completed (struct literal), or replaced by operands of the other type
+DepEditA ==
+  \E f \in 1..Len(fn) : \E b \in 1..Len(fn[f].blocks) : \E p \in 1..Len(fn[f].blocks[b].insts), ty \in {0, 1} :
+    LET i == fn[f].blocks[b].insts[p] IN
+    /\ i.op = "dep"
+    /\ \/ /\ "FillArgs" \in Edits /\ i.args = <<>>
+          /\ Mutate(LAMBDA w : SetArgsW(w, f, b, p, ty), [op |-> "FillArgs", f |-> f, b |-> b, p |-> p, v |-> ty])
+       \/ /\ "RetypeArgs" \in Edits /\ i.args # <<>> /\ i.aty # ty /\ (~i.lit \/ LitRetype)
+          /\ Mutate(LAMBDA w : SetArgsW(w, f, b, p, ty), [op |-> "RetypeArgs", f |-> f, b |-> b, p |-> p, v |-> ty])
 SetTermA ==
   \E f \in 1..Len(fn) : \E b \in 1..Len(fn[f].blocks) : \E t \in Terms :
     /\ [fn[f].blocks[b].term EXCEPT !.id = 0, !.tgt = 0] # t          \* set, or replace by a different one
@@ -740,6 +932,7 @@ QueryA == \E q \in Observers \cap {"QueryIdent", "QuerySuccs"} :
 
 Next == \/ ParseText
         \/ NewGlobalA \/ NewGlobalRefA \/ NewFuncA \/ NewBlockA \/ InsertInstA \/ RemoveInstA
+        \/ ReplaceInstA \/ SwapInstsA \/ SetTargetA \/ DepEditA
         \/ SetTermA \/ RetargetA \/ SetNameA \/ OperandEditA \/ SetFieldA \/ InsertMdA \/ RemoveMdA \/ AttachMdA
         \/ PrintModuleA \/ PrintFuncA \/ PrintBlockA \/ QueryTypeA \/ QueryOperandsA \/ QueryA
 Spec == Init /\ [][Next]_vars
